@@ -170,6 +170,11 @@ FEATURE = {
     'pyrrole': ring5('ncccc', (1, 2, 1, 2, 1), arom_h=(0,)),
     'methylpyrrole': ring5('ncccc', (1, 2, 1, 2, 1), [(0, 'C', 1)]),
     'imidazole': ring5('ncncc', (1, 2, 1, 2, 1), arom_h=(0,)),
+    # ring written with aromatic symbols that carries exocyclic double bonds (returned kekulised)
+    'quinone': dict(mk(list('cccccc') + ['O', 'O'], [(i, (i + 1) % 6, 1.5) for i in range(6)] + [(0, 6, 2), (3, 7, 2)]),
+                    kekule=[[0, 1, 1], [1, 2, 2], [2, 3, 1], [3, 4, 1], [4, 5, 2], [5, 0, 1]]),
+    'pyranone': dict(mk(list('occccc') + ['O'], [(i, (i + 1) % 6, 1.5) for i in range(6)] + [(3, 6, 2)]),
+                     kekule=[[0, 1, 1], [1, 2, 2], [2, 3, 1], [3, 4, 1], [4, 5, 2], [5, 0, 1]]),
     'naphthalene': mk(list('cccccccccc'),
                       [(0, 1, 1.5), (1, 2, 1.5), (2, 3, 1.5), (3, 4, 1.5), (4, 5, 1.5), (5, 0, 1.5),
                        (4, 6, 1.5), (6, 7, 1.5), (7, 8, 1.5), (8, 9, 1.5), (9, 5, 1.5)]),
